@@ -1,4 +1,5 @@
 import OsacaVerif.Model.Text
+import OsacaVerif.Model.A64Types
 import OsacaVerif.Gen.A64Grammar
 /-
   Model of `ParserAArch64` (osaca/parser/parser_AArch64.py) and `BaseParser.parse_file`.
@@ -132,12 +133,6 @@ def hexNumNS (s : Txt) : Res Txt :=
     | none => none
 def decNum (s : Txt) : Res Txt := decNumNS (skipWs s)
 def hexNum (s : Txt) : Res Txt := hexNumNS (skipWs s)
-
-structure Ident where
-  reloc : Option Txt
-  name : Txt
-  offset : Option Txt
-  deriving DecidableEq, Repr
 
 /-- `Combine(":" + Word(alphanums+"_") + ":")` -/
 def relocation (s : Txt) : Res Txt :=
@@ -479,14 +474,26 @@ inductive RawOp where
 
 def arithOp (s : Txt) : Res RawOp := mapR (fun x => RawOp.arith x.1 x.2.1 x.2.2) (arithP s)
 
-/-- `register ^ (prefetch_op | immediate) ^ memory ^ arith_immediate ^ identifier` -/
+/-- `WordEnd(alphanums + "_.")` (no white-space skipping): end of text or a non-word character next -/
+def isWordEndC (c : Nat) : Bool := isAlnumC c || A64.wordEndExtra.contains c
+def wordEnd {α : Type} (a : Res α) : Res α :=
+  match a with
+  | some (x, c :: r) => if isWordEndC c then none else some (x, c :: r)
+  | some (x, []) => some (x, [])
+  | none => none
+
+/-- `(prefetch_op + word_end)
+     | (register ^ (prefetch_op | immediate) ^ memory ^ arith_immediate ^ identifier)` -/
 def operandFirst (s : Txt) : Res RawOp :=
+  wordEnd (mapR (fun x => RawOp.prf x.1 x.2.1 x.2.2) (prefetchP s)) </>
   mapR RawOp.reg (registerP s)
     <^> (mapR (fun x => RawOp.prf x.1 x.2.1 x.2.2) (prefetchP s) </> mapR RawOp.imm (immediate s))
     <^> mapR RawOp.mem (memoryP s) <^> arithOp s <^> mapR RawOp.ident (identifier s)
 
-/-- `(register ^ condition ^ immediate ^ memory ^ arith_immediate) | identifier` -/
+/-- `(condition + word_end) | (register ^ condition ^ immediate ^ memory ^ arith_immediate)
+     | identifier` -/
 def operandRest (s : Txt) : Res RawOp :=
+  wordEnd (mapR RawOp.cond (conditionP s)) </>
   (mapR RawOp.reg (registerP s) <^> mapR RawOp.cond (conditionP s) <^> mapR RawOp.imm (immediate s)
     <^> mapR RawOp.mem (memoryP s) <^> arithOp s)
   </> mapR RawOp.ident (identifier s)
@@ -550,72 +557,6 @@ inductive Err where
   | err   -- ValueError out of parse_line (ParseException / KeyError / ValueError of int())
   | exc   -- any other exception type escaping parse_line
   deriving DecidableEq, Repr
-
-structure Reg where
-  pre : Txt
-  name : Txt
-  shape : Option Txt := none
-  lanes : Option Txt := none
-  index : Option Txt := none
-  pred : Option Txt := none
-  deriving DecidableEq, Repr
-
-inductive Imm where
-  | int (v : Int)
-  | flt (dbl : Bool) (mant : Txt) (exp : Option (Txt × Txt))
-  deriving DecidableEq, Repr
-
-inductive MemOff where
-  | imm (v : Int)
-  | ident (i : Ident)
-  | other
-  deriving DecidableEq, Repr
-
-structure MemIdx where
-  pre : Txt
-  name : Txt
-  shiftOp : Option Txt
-  /-- text of the shift amount; `?` if it is not a plain number -/
-  shift : Option Txt
-  deriving DecidableEq, Repr
-
-inductive PostIdx where
-  | imm (v : Int)
-  | other
-  deriving DecidableEq, Repr
-
-structure Mem where
-  offset : Option MemOff
-  basePre : Txt
-  baseName : Txt
-  index : Option MemIdx
-  scale : Nat
-  pre : Bool
-  post : Option PostIdx
-  deriving DecidableEq, Repr
-
-inductive Operand where
-  | reg (r : Reg)
-  | imm (i : Imm)
-  | ident (i : Ident)
-  | cond (cc : Txt)
-  | prf (t g p : Txt)
-  | mem (m : Mem)
-  deriving DecidableEq, Repr
-
-def digitVal (c : Nat) : Nat :=
-  if isDigitC c then c - 48 else if 97 ≤ c then c - 87 else c - 55
-def natOfDigits (base : Nat) (t : Txt) : Nat := t.foldl (fun a c => a * base + digitVal c) 0
-
-/-- decimal text of a natural number (`str(n)`) -/
-def showNatAux : Nat → Nat → Txt → Txt
-  | 0, _, acc => acc
-  | f + 1, n, acc => if n < 10 then (48 + n) :: acc else showNatAux f (n / 10) ((48 + n % 10) :: acc)
-def showNat (n : Nat) : Txt := showNatAux (n + 1) n []
-def showInt (i : Int) : Txt :=
-  match i with
-  | Int.ofNat n => showNat n
-  | Int.negSucc n => 45 :: showNat (n + 1)
 
 /-- `int(text, 0)` for the texts the grammar can produce (`-`? digits | `-`? `0x` hexdigits) -/
 def pyInt0 (t : Txt) : Option Int :=
@@ -818,19 +759,6 @@ def processOperands : List RawOp → Except Err (List Operand)
       | .ok ys => .ok (xs ++ ys)
 
 /-! ### lines -/
-inductive Line where
-  | comment (c : Txt)
-  | label (name : Txt) (c : Option Txt)
-  | directive (name : Txt) (params : List Txt) (c : Option Txt)
-  | instr (mn : Txt) (ops : List Operand) (c : Option Txt)
-  deriving DecidableEq, Repr
-
-inductive Out where
-  | err
-  | exc
-  | ok (l : Line)
-  deriving DecidableEq, Repr
-
 /-- 1. comment line -/
 def commentLine (s : Txt) : Option Txt :=
   match commentP s with
@@ -979,12 +907,6 @@ def isPyWs (c : Nat) : Bool :=
   decide (8192 ≤ c ∧ c ≤ 8202) || c == 8232 || c == 8233 || c == 8239 || c == 8287 || c == 12288
 
 def isBlank (l : Txt) : Bool := l.all isPyWs
-
-structure FileLine where
-  lineNo : Nat
-  text : Txt
-  out : Out
-  deriving DecidableEq, Repr
 
 /-- the loop of `parse_file`: `i` is the 0-based index of the first line of `ls` -/
 def parseLinesFrom (start : Nat) : Nat → List Txt → List FileLine
